@@ -55,7 +55,11 @@ def mkseq(g, sid, SR, chans, P, spec, subs):
             for fld in ("goto", "jump_target", "nrep", "twait", "jump_input"):
                 if r.random() < 0.5:
                     v = r.choice([-1, 0, 1, P]) if fld == "jump_target" else (r.randint(0, P) if fld == "goto" else r.randint(0, 3))
-                    ops.append({"op": "sq.setSeq", "id": sid, "pos": p, "field": fld, "v": v})
+                    o = {"op": "sq.setSeq", "id": sid, "pos": p, "field": fld, "v": v}
+                    if fld in ("goto", "jump_target") and v > 0 and (p + P + len(chans)) % 3 == 0:
+                        # the same target as a numpy integer / a whole float (computed by the caller's own code)
+                        o["_as"] = "npint" if (p + v) % 2 == 0 else "float"
+                    ops.append(o)
     ops += settings_ops(r, sid, chans, SR, spec)
     return ops, info
 
